@@ -8,6 +8,7 @@ import (
 	"fmt"
 	"slices"
 	"strings"
+	"unicode"
 )
 
 // AuditEngineStatus represents the functionality
@@ -188,7 +189,8 @@ func ParseAuditLogParts(opts string) (AuditLogParts, error) {
 	// Validate the middle parts (everything between A and Z)
 	middleParts := opts[1 : len(opts)-1]
 	for _, p := range middleParts {
-		if !slices.Contains(orderedAuditLogParts, AuditLogPart(p)) {
+		// AuditLogPart is a byte: a wider rune must not be truncated into a valid part
+		if p > unicode.MaxASCII || !slices.Contains(orderedAuditLogParts, AuditLogPart(p)) {
 			return AuditLogParts(""), fmt.Errorf("invalid audit log parts %q", opts)
 		}
 	}
@@ -220,7 +222,7 @@ func ApplyAuditLogParts(base AuditLogParts, modification string) (AuditLogParts,
 		if p == 'A' || p == 'Z' {
 			return nil, fmt.Errorf("audit log parts A and Z are mandatory and cannot be modified")
 		}
-		if !slices.Contains(orderedAuditLogParts, AuditLogPart(p)) {
+		if p > unicode.MaxASCII || !slices.Contains(orderedAuditLogParts, AuditLogPart(p)) {
 			return nil, fmt.Errorf("invalid audit log part %q", p)
 		}
 	}
